@@ -129,6 +129,9 @@ fn comp_char(r: &mut Rng, hostility: usize) -> char {
 
 /// A non-empty component string; `no_slash` for namespace / subpath segments.
 pub fn comp_string(r: &mut Rng, no_slash: bool) -> String {
+    if r.chance(1, 12) {
+        return crate::gen::boundary_string(r, no_slash);
+    }
     let (lo, hi) = len_short(r);
     let n = r.range(lo, hi);
     let hostility = *r.pick(&[0usize, 10, 35, 35, 70, 100]);
